@@ -25,6 +25,7 @@ import (
 	"encoding/json"
 	"errors"
 	"net/http"
+	"sort"
 	"time"
 
 	"connectrpc.com/connect"
@@ -237,4 +238,62 @@ func VerifParseConnectEndStream(data []byte) (hasErr bool, werr VerifWireError, 
 		werr = VerifWireError{Code: uint32(end.err.Code()), Message: end.err.Message(), Details: len(end.err.Details())}
 	}
 	return hasErr, werr, end.trailers, nil
+}
+
+// VerifMethodTable is the harness-visible form of one methodConfig.
+type VerifMethodTable struct {
+	Path           string
+	Protocols      []int
+	Codecs         []string
+	PreferredCodec string
+	Compressors    []string
+	MaxMsg, MaxGet uint32
+	RuleMethod     string // HTTP method of methodConfig.httpRule ("" = none)
+	RulePattern    string // and its path pattern as routeTarget renders it
+	RuleBody       string
+	RuleRespBody   string
+}
+
+// VerifTables dumps the immutable tables NewTranscoder built, sorted by method path.
+func (t *Transcoder) VerifTables() []VerifMethodTable {
+	var out []VerifMethodTable
+	for _, conf := range t.methods {
+		row := VerifMethodTable{
+			Path: conf.methodPath, PreferredCodec: conf.preferredCodec,
+			MaxMsg: conf.maxMsgBufferBytes, MaxGet: conf.maxGetURLBytes,
+		}
+		for p := range conf.protocols {
+			row.Protocols = append(row.Protocols, int(p))
+		}
+		for c := range conf.codecNames {
+			row.Codecs = append(row.Codecs, c)
+		}
+		for c := range conf.compressorNames {
+			row.Compressors = append(row.Compressors, c)
+		}
+		sort.Ints(row.Protocols)
+		sort.Strings(row.Codecs)
+		sort.Strings(row.Compressors)
+		if conf.httpRule != nil {
+			segs := pathSegments{path: conf.httpRule.path, verb: conf.httpRule.verb}
+			row.RuleMethod, row.RulePattern = conf.httpRule.method, segs.String()
+			row.RuleBody, row.RuleRespBody = conf.httpRule.requestBodyFieldPath, conf.httpRule.responseBodyFieldPath
+		}
+		out = append(out, row)
+	}
+	sort.Slice(out, func(i, j int) bool { return out[i].Path < out[j].Path })
+	return out
+}
+
+// VerifRouteMatch wraps the transcoder's REST route lookup: the RPC method path of the binding
+// that serves (uriPath, httpMethod), its body selectors and the captured variables.
+func (t *Transcoder) VerifRouteMatch(uriPath, httpMethod string) (methodPath, body, respBody string, vars []string, found bool) {
+	target, varMatches, _ := t.restRoutes.match(uriPath, httpMethod)
+	if target == nil {
+		return "", "", "", nil, false
+	}
+	for _, vm := range varMatches {
+		vars = append(vars, resolveFieldDescriptorsToPath(vm.fields, false)+"="+vm.value)
+	}
+	return target.config.methodPath, target.requestBodyFieldPath, target.responseBodyFieldPath, vars, true
 }
